@@ -256,20 +256,38 @@ Definition rtsp_set_asc (s0 : rtsp_st) (asc : bytes) : rtsp_st :=
 Definition rtsp_push_cache (s0 : rtsp_st) (m : mmsg) : rtsp_st :=
   mk_rtsp (rs_done s0) (rs_cache s0 ++ [m]) (rs_vps s0) (rs_sps s0) (rs_pps s0) (rs_asc s0) (rs_audio_pt s0) (rs_video_pt s0) (rs_apacker s0) (rs_vpacker s0).
 
-(* the metadata branch: audiocodecid *)
-Definition rtsp_meta (acfg : amf_cfg) (s : rtsp_st) (p : bytes) : res rtsp_st :=
+(* a Go type assertion v.(float64) on what ObjectPairArray.Find returned (None = nil interface: key absent, or a
+   null / undefined value, which the readers drop).  The AMF value is a sum type (number | boolean | string |
+   pair list for object / ecma array / strict array): the comma-ok form `x, ok := v.(float64)` yields ok = false
+   for every other summand, the unchecked form `v.(float64)` panics for them (and for nil) *)
+Definition s_meta_assert : N := 122.   (* remux.Rtmp2RtspRemuxer.FeedRtmpMsg:explicit (interface conversion) *)
+Definition assert_f64 (comma_ok : bool) (v : option aval) : res (option N) :=
+  match v with
+  | Some (ANum bits) => Ok (Some bits)
+  | _ => if comma_ok then Ok None else Panic s_meta_assert
+  end.
+
+Definition k_audiosamplerate : bytes := [97; 117; 100; 105; 111; 115; 97; 109; 112; 108; 101; 114; 97; 116; 101].
+
+(* the metadata branch: audiocodecid and audiosamplerate, both read with the comma-ok form in lal ([ok] = true);
+   the sample rate only reaches the SDP text and the packers' clock rate, which are not modelled *)
+Definition rtsp_meta_gen (ok : bool) (acfg : amf_cfg) (s : rtsp_st) (p : bytes) : res rtsp_st :=
   match fst (parse_metadata acfg p) with
   | Panic site => Panic site
   | Err _ => Ok s
   | Ok meta =>
-    match pairs_find k_audiocodecid meta with
-    | Some (ANum bits) =>
-      let c := f64_to_u8 bits in
-      Ok (if c =? 8 then set_audio_pt s pt_g711u else if c =? 7 then set_audio_pt s pt_g711a
-          else if c =? 13 then set_audio_pt s pt_opus else s)
-    | _ => Ok s
-    end
+    let* codec := assert_f64 ok (pairs_find k_audiocodecid meta) in
+    let s1 := match codec with
+              | Some bits =>
+                let c := f64_to_u8 bits in
+                if c =? 8 then set_audio_pt s pt_g711u else if c =? 7 then set_audio_pt s pt_g711a
+                else if c =? 13 then set_audio_pt s pt_opus else s
+              | None => s
+              end in
+    let* _ := assert_f64 ok (pairs_find k_audiosamplerate meta) in
+    Ok s1
   end.
+Definition rtsp_meta : amf_cfg -> rtsp_st -> bytes -> res rtsp_st := rtsp_meta_gen true.
 
 Definition rtsp_gate_short (m : mmsg) : bool :=
   if mm_type m =? t_audio then Nat.leb (length (mm_pay m)) 2
